@@ -41,7 +41,7 @@ fn plan(tier: Tier) -> Plan {
             exhaustive: false,
         },
         Tier::Thorough => Plan {
-            cases: tuples(THOR_MAXW, THOR_WORDS) + 200_000,
+            cases: tuples(THOR_MAXW, THOR_WORDS) + 2_000_000,
             time_cap_s: 600,
             case_timeout_s: 20,
             exhaustive: false,
